@@ -45,6 +45,7 @@ type op struct {
 	target int    // accused (allegation)
 	yes    bool   // vote
 	amount int64  // staking kinds, whole OLT; -1 = the validator's whole current stake
+	payer  int    // stake: 1+index of the validator whose STAKE ACCOUNT pays (0 = the actor's own)
 }
 
 func (o op) String() string {
@@ -63,6 +64,9 @@ func (o op) String() string {
 	a := fmt.Sprint(o.amount)
 	if o.amount < 0 {
 		a = "all"
+	}
+	if o.payer > 0 {
+		a += ",paid-by-stake-account-of-" + actorName(o.payer-1)
 	}
 	return fmt.Sprintf("%s(%s,%s)", kindNames[o.kind], actorName(o.actor), a)
 }
@@ -99,8 +103,11 @@ func alleg(req string, reporter, accused int) op {
 func vote(req string, voter int, yes bool) op {
 	return op{kind: opVote, actor: voter, req: req, yes: yes}
 }
-func release(v int) op           { return op{kind: opRelease, actor: v} }
-func stake(v int, n int64) op    { return op{kind: opStake, actor: v, amount: n} }
+func release(v int) op        { return op{kind: opRelease, actor: v} }
+func stake(v int, n int64) op { return op{kind: opStake, actor: v, amount: n} }
+func stakeBy(v, payer int, n int64) op {
+	return op{kind: opStake, actor: v, amount: n, payer: payer + 1}
+}
 func unstake(v int, n int64) op  { return op{kind: opUnstake, actor: v, amount: n} }
 func withdraw(v int, n int64) op { return op{kind: opWithdraw, actor: v, amount: n} }
 func quiet(n int) []event        { return make([]event, n) }
@@ -307,6 +314,28 @@ var worlds = []*wdef{
 			ev(vote("A2", v1, true), vote("A2", v4, true)),
 			ev(vote("A2", v4, true)),
 			ev(vote("A", v4, false)),
+		},
+		depth: map[string]int{"quick": 4, "thorough": 6},
+		share: 0.3,
+	},
+	{
+		// ONE stake account funds TWO validators (the stake handler only demands an unused stake account when an
+		// existing validator switches to another one): the candidate V5 was staked from V3's stake account.
+		// Allegations against either of them: the penalty is a share of THAT validator's stake. (Added after a
+		// seeded change - the penalty taken from the stake account's total over all validators it funds -
+		// escaped the worlds in which every validator has its own stake account.)
+		name: "shared", nVals: 4, votePct: 50,
+		prefix: seq(quiet(2), []event{ev(stakeBy(candidate, v3, 1500000))}, quiet(3), []event{ev(alleg("A", v1, v3))}),
+		alphabet: []event{
+			ev(),
+			ev(vote("A", v1, true)),
+			ev(vote("A", v2, true)),
+			ev(vote("A", v4, true)),
+			ev(vote("A", v1, true), vote("A", v2, true)),
+			ev(alleg("B", v2, candidate)),
+			ev(vote("B", v1, true), vote("B", v2, true)),
+			ev(vote("B", v4, true)),
+			ev(unstake(v3, 100000)),
 		},
 		depth: map[string]int{"quick": 4, "thorough": 6},
 		share: 0.3,
